@@ -249,7 +249,7 @@ def run_check(mod, ctx: Ctx, args) -> int:
             }
             blob = json.dumps(art, indent=1, ensure_ascii=False, sort_keys=True)
             sha = hashlib.sha1(
-                json.dumps([r.name, art["case"], ex["clause"]], sort_keys=True).encode()
+                json.dumps([r.name, art["case"], ex["clause"], ex["signature"]], sort_keys=True, default=str).encode()
             ).hexdigest()[:16]
             rdir.mkdir(parents=True, exist_ok=True)
             path = rdir / f"{sha}.json"
